@@ -101,11 +101,6 @@ func init() {
 		"[x.eof && x.error && x.errorString == \"\"] x.errorString = \"unexpected EOF while parsing\"; ExceptionNewf(py.SyntaxError, \"%s\", x.errorString) -> err!",
 		"[x.error && x.errorString != \"\"] ExceptionNewf(py.SyntaxError, \"%s\", x.errorString) -> err!",
 	}
-	// MRO lookup: every call walks the current MRO of the type and returns the first dictionary hit; nothing is memoised across calls (a cache would need invalidation in every subclass)  []
-	pathSpec["py|Type.Lookup"] = []string{
-		"[t.Mro != nil] LOOP(range t.Mro){[!(has(base.Dict[name]))]   | [has(base.Dict[name])]  break} -> after-loop:res",
-		"[t.Mro == nil]  -> nil",
-	}
 	// range equality compares the sequences the ranges denote: different lengths differ; empty ranges are equal; then the first items must agree; a range of one item needs nothing more; otherwise the steps must agree [rangeobject.c range_equals]  []
 	pathSpec["py|Range.M__eq__"] = []string{
 		"[!(other.(*Range))]  -> NotImplemented, nil",
@@ -201,11 +196,9 @@ func init() {
 		"[err != nil && key.(*Slice)] key.GetIndices(len(l.Items)) -> nil, err!",
 		"[err == nil && key.(*Slice) && len(py.SequenceTuple#0) - ret#3:slice.GetIndices(len(l.Items)) != 0 && ret#2:slice.GetIndices(len(l.Items)) != 1] key.GetIndices(len(l.Items)); SequenceTuple(value); ExceptionNewf(ValueError, lit, len(py.SequenceTuple#0), ret#3:slice.GetIndices(len(l.Items))) -> nil, err!",
 		"[err == nil && key.(*Slice) && len(py.SequenceTuple#0) - ret#3:slice.GetIndices(len(l.Items)) == 0 && ret#2:slice.GetIndices(len(l.Items)) != 1] key.GetIndices(len(l.Items)); SequenceTuple(value); LOOP(for i, j := start, 0; j < slicelength; i, j = i+step, j+1){[]  } -> None, nil",
-		"[err == nil && key.(*Slice) && ret#0:slice.GetIndices(len(l.Items)) - ret#1:slice.GetIndices(len(l.Items)) <= 0 && ret#2:slice.GetIndices(len(l.Items)) == 1] key.GetIndices(len(l.Items)); SequenceTuple(value) -> nil, err!",
 		"[err == nil && key.(*Slice) && ret#0:slice.GetIndices(len(l.Items)) - ret#1:slice.GetIndices(len(l.Items)) <= 0 && ret#2:slice.GetIndices(len(l.Items)) == 1] key.GetIndices(len(l.Items)); SequenceTuple(value); l.Items = append(l.Items[:start], py.SequenceTuple#0); l.Items = append(l.Items, copy-of[l.Items[stop:]]) -> None, nil",
-		"[err == nil && key.(*Slice) && ret#0:slice.GetIndices(len(l.Items)) - ret#1:slice.GetIndices(len(l.Items)) >= 1 && ret#2:slice.GetIndices(len(l.Items)) == 1] key.GetIndices(len(l.Items)); SequenceTuple(value) -> nil, err!",
 		"[err == nil && key.(*Slice) && ret#0:slice.GetIndices(len(l.Items)) - ret#1:slice.GetIndices(len(l.Items)) >= 1 && ret#2:slice.GetIndices(len(l.Items)) == 1] key.GetIndices(len(l.Items)); SequenceTuple(value); l.Items = append(l.Items[:start], py.SequenceTuple#0); l.Items = append(l.Items, copy-of[l.Items[stop:]]) -> None, nil",
-		"[err == nil && key.(*Slice) && ret#2:slice.GetIndices(len(l.Items)) != 1] key.GetIndices(len(l.Items)); SequenceTuple(value) -> nil, err!",
+		"[err == nil && key.(*Slice)] key.GetIndices(len(l.Items)); SequenceTuple(value) -> nil, err!",
 	}
 	// list item and slice deletion: simple slices clamp stop to start and splice; extended slices delete slicelength items in ascending order, starting for a negative step from start+step*(slicelength-1) [listobject.c list_ass_subscript]  []
 	pathSpec["py|List.M__delitem__"] = []string{
